@@ -49,7 +49,7 @@ CLAIMED = {
    ref="DESIGN.md §4 C14"),
  "C01": dict(
    text="All histories of k=2/3 actions {start read/read-all/write/write-all, Cancel, Close, poll cycle} over two objects (stream socket, pipe read end, pipe write end as file objects) sharing one real IO + epoll poller on the kernel model, started inline or at the dispatch limit, with every kernel outcome (data, EOF, EAGAIN, error), every poll batch of <= 1/2 entries in any order with any mask incl. ERR/HUP (HUP alone on pipes), and completion callbacks that re-issue, cancel or close themselves or the other object; plus both directions armed on one socket followed by k=2/3 further actions. Asserted: each callback at most once; Cancel completes each in-flight operation once with ErrCancelled; nothing invoked after Close returned; every uncompleted operation is armed in sonic's books AND in the kernel's interest list; an ERR/HUP entry completes an in-flight operation.",
-   note="Kernel contract of DESIGN.md §3 (vsys/vkernel) is assumed: spurious readiness allowed, HUP/ERR is a permanent condition after which I/O no longer returns EAGAIN. Objects: sonic file over socket/pipe descriptors; listener, packet conn and AsyncAdapter follow the same reactor code but are not in this harness; kqueue back end, more than 2 objects / 2 simultaneous entries are outside the claim.",
+   note="Kernel contract of DESIGN.md §3 (vsys/vkernel) is assumed: spurious readiness allowed, HUP/ERR is a permanent condition after which I/O no longer returns EAGAIN. Objects: sonic file over socket/pipe descriptors in the first two harnesses; VerifC01_OtherObjects runs k=3/4 histories {start, cancel, close, poll} with the listener (accept), the packet connection (read-from / write-to) or the real AsyncAdapter as object 0 next to a stream file, same assertions. kqueue back end, more than 2 objects / 2 simultaneous entries are outside the claim.",
    ref="DESIGN.md §4 C01"),
  "C02": dict(
    text="AsyncRead/AsyncReadAll/AsyncWrite/AsyncWriteAll on the real file code over the real poller and kernel model with buffer length L symbolic in [1,2^31], inline or deferred start, up to 3/4 data-transferring system calls of symbolic sizes with would-block, EOF and errors between them and 3/4 poll cycles: count passed to the callback equals the bytes the model moved, buffer bytes at an arbitrary index equal the delivered stream (reads) / accepted stream equals the caller's bytes (writes), *All succeeds only with n == L, on error n <= transferred, callback at most once, Dispatched restored, nothing pending after completion.",
